@@ -77,14 +77,15 @@ func (e *client) Grep(pattern string) (
 
 func (e *client) Rename(oldID, newID string) error {
 	dagStore := e.dataStore.DAGStore()
-	oldDAG, err := dagStore.Find(oldID)
+	// resolve both names the way every other operation on the store does
+	oldDAG, err := dagStore.GetDetails(oldID)
 	if err != nil {
 		return err
 	}
 	if err := dagStore.Rename(oldID, newID); err != nil {
 		return err
 	}
-	newDAG, err := dagStore.Find(newID)
+	newDAG, err := dagStore.GetDetails(newID)
 	if err != nil {
 		return err
 	}
